@@ -8,13 +8,19 @@ TRACE_MODULE = "Trace_C02"
 def run(ctx):
     ctx.mc("MC_C02", "MC_C02.cfg", what="all 27 product shapes on basis matrices and small integer matrices: (AB)^T = B^T A^T, (AB)v = A(Bv), "
            "outer(c,r) = c r^T, E_ij E_kl = delta_jk E_il, conversion laws, column-major indexing")
-    b = ctx.build("c02", "c02.cpp")
-    if not b:
-        return
-    tr = ctx.scratch.path("c02.ndjson")
-    ok, out = ctx.run_harness(b, [tr, ctx.tier], tr)
-    if ok:
-        ctx.validate(TRACE_MODULE, tr, label="pure", min_lines=600)
+    # the same harness and the same judge for the packed (pure) build and for the aligned SIMD build, where defaultp is
+    # aligned_highp and mat4*mat4, mat4*vec4, transpose, outerProduct ... run their intrinsic specialisations
+    cfgs = [("pure", "c02", []), ("aligned-sse2", "c02_sse2", ["-DGLM_FORCE_INTRINSICS", "-DGLM_FORCE_DEFAULT_ALIGNED_GENTYPES", "-msse2"])]
+    if not ctx.quick:
+        cfgs.append(("aligned-avx2", "c02_avx2", ["-DGLM_FORCE_INTRINSICS", "-DGLM_FORCE_DEFAULT_ALIGNED_GENTYPES", "-mavx2"]))
+    for label, name, flags in cfgs:
+        b = ctx.build(name, "c02.cpp", flags=flags, label="c02 " + label)
+        if not b:
+            continue
+        tr = ctx.scratch.path(name + ".ndjson")
+        ok, out = ctx.run_harness(b, [tr, ctx.tier if label == "pure" else "simd"], tr)
+        if ok:
+            ctx.validate(TRACE_MODULE, tr, label=label, min_lines=600)
     ctx.rule("float, double, int, uint (+ int16, uint8 thorough): all 27 matrix products on every pair of basis matrices E_ij x E_kl (every index "
              "path of every hand-expanded product), dense distinct-prime matrices, exact dyadic fractions and random floats; 9 mat*vec and vec*mat "
              "shapes incl. aliasing forms; transpose, outerProduct, matrixCompMult, element-wise and scalar operators, compound assignments, "
